@@ -164,6 +164,39 @@ def work_store(ctx, item):
             ctx.compare('process_notes', ('ok', n[1]), ctx.model.call('process_notes', stored, [k for k in ref_db], txt), {'kind': 'notes', 'arg': arg})
 
 
+def notes_cases(ctx):
+    """process_notes on synthetic notes: reference keys of which one is contained in another (neto2021a / canalneto2021a in the
+    shipped database), mentioned together, alone, repeatedly, and not at all"""
+    bse = impl.bse()
+    from basis_set_exchange import references, notes as notesmod
+    ref_db = bse.get_reference_data()
+    keys = sorted(k for k in ref_db if k != 'molssi_bse_schema')
+    nested = [(a, b_) for a in keys for b_ in keys if a != b_ and a in b_][:3]
+    plain = keys[:2]
+    texts = []
+    for a, b_ in nested:
+        texts += ['Exponents from %s; contraction from %s.' % (a, b_), 'See %s.\nSee also %s and again %s.' % (b_, a, a), 'Only %s is cited here.' % a]
+    texts += ['Two plain keys: %s, %s.' % tuple(plain), 'No key is mentioned here.', '']
+    for t in texts:
+        n = impl.call(notesmod.process_notes, t, ref_db)
+        ctx.case(('synthetic-notes', t), True, 'notes:synthetic')
+        rp = {'kind': 'notes', 'arg': t}
+        if n[0] != 'ok' or not n[1].startswith(t):
+            ctx.violation('notes.process_notes', 'not-as-given', 'process_notes does not return the notes followed by the reference block (%s)' % (n[0] if n[0] == 'ok' else n[1]), rp)
+            continue
+        tail = n[1][len(t):]
+        # a key is mentioned when it stands in the text as a word of its own
+        import re
+        for k in keys:
+            if re.search(r'(?<![A-Za-z0-9_])' + re.escape(k) + r'(?![A-Za-z0-9_])', t) and references.reference_text(k, ref_db[k]) not in tail:
+                ctx.violation('notes.process_notes', 'mentioned-missing', 'the text of the mentioned reference %s is missing from the block appended to %r' % (k, t[:60]), rp)
+                break
+        if ctx.model is not None:
+            ment = sorted(k for k in keys if k in t)
+            txt = {k: references.reference_text(k, ref_db[k]) for k in ment}
+            ctx.compare('process_notes', ('ok', n[1]), ctx.model.call('process_notes', t, keys, txt), rp)
+
+
 def work_generated(ctx, seed):
     rng = random.Random(seed)
     bse = impl.bse()
@@ -218,6 +251,7 @@ def run(ctx):
         pairs = store.all_pairs(md)
     else:
         pairs = [(n, md[n]['latest_version']) for n in store.sample_names(ctx.rng, 36, md)]
+    notes_cases(ctx)
     store.parallel(ctx, work_store, pairs)
     store.parallel(ctx, work_generated, [ctx.seed * 29 + i for i in range(ctx.budget(24, 800))])
 
